@@ -479,8 +479,11 @@ Definition td_validate (p : iprog) (voff : N) (entries : list nat) (init : env)
            (tpre tpost : nat -> nat -> env) (S : list summ)
            (delay desc efuel : nat) (wtos : nat -> wto) : bool :=
   let mk := mk_cert p voff S delay desc efuel wtos in
+  (* the root context of an entry function of the recursive set starts from top, as the analyzer
+     does (fixes/inter-6); untrusted: whatever the roots, td_check decides *)
+  let rs := match cg_recset p with Some rs => rs | None => [] end in
   td_check p voff entries init tpre tpost
-           (map (fun f => mk f init) entries)
+           (map (fun f => mk f (if nmem f rs then e_top else init)) entries)
            (map (fun sm => (sm, mk (s_fn sm) (s_pre sm))) S).
 
 (* the summaries stored by the model: get_summary(f) for every function, in order *)
